@@ -3,7 +3,7 @@ transformations").
 
 Run-time contracts on the REAL gaddlemaps.Alignment (start/end setters, align_molecules) driving the
 REAL Monte-Carlo optimiser (gaddlemaps._backend, Python engine) with a small step budget
-(Alignment.STEPS_FACTOR set on the instance, 3..40), over generated molecule pairs written to a
+(Alignment.STEPS_FACTOR set on the instance, 3..20), over generated molecule pairs written to a
 temporary directory with this module's own .gro/.itp writers, plus two shipped pairs in the thorough
 tier.  Every expected value is derived from the generated input (coordinates, names, bond graph),
 never from the object under check.
@@ -63,6 +63,15 @@ class Harness(Exception):
     """Problem of the checking harness (never a property violation)."""
 
 
+class OverBudget(Harness):
+    """The optimiser needed more energy evaluations than the case's budget: the run is skipped (termination and
+    run time are not part of C06)."""
+
+
+class _Budget(BaseException):
+    pass
+
+
 # ---------------------------------------------------------------------------
 # info
 
@@ -74,14 +83,16 @@ def bounded_info():
                       "gaddlemaps/_alignment.py::remove_hydrogens",
                       "gaddlemaps/_backend.py::minimize_molecules", "gaddlemaps/_backend.py::_minimize_molecules",
                       "gaddlemaps/_transform_molecule.py::move_mol_atom", "gaddlemaps/components/_residue.py::Residue.move_to"],
-        "stubs": ["Alignment.STEPS_FACTOR set on the checked instance (3..40) -- the step budget is one of the quantified inputs"],
+        "stubs": ["Alignment.STEPS_FACTOR set on the checked instance (3..20) -- the step budget is one of the quantified inputs",
+                  "gaddlemaps._backend.Chi2Calculator.__call__ wrapped by a call counter (calls the real method; aborts and skips a run "
+                  "beyond 20000 energy evaluations (80000 for the large thorough pairs); skipped runs are counted in guard.scope-evaluated-within-energy-budget)"],
         "assumptions": ["Python Monte-Carlo engine (cython_backend not importable; checked at run time, else undecided)",
                         "generic positions: generated atoms are >= 0.06 nm apart, coordinates with three decimals",
                         "random streams sampled through np.random.seed(k), k in 0..2 (quick) / 0..4 (thorough)",
                         "tolerance 1e-9 nm scaled by max(1, distance)"],
         "explanation": (
             "Bounded run-time contract checks (never counted as proved) of the real Alignment with the real optimiser and a small step "
-            "budget (STEPS_FACTOR 3/10/40 on the instance). Scope: seeded random trees (path/star/random recursive, relabelled) of "
+            "budget (STEPS_FACTOR 3/8/20 on the instance). Scope: seeded random trees (path/star/random recursive, relabelled) of "
             "1..8 atoms (quick) or 1..40 atoms (thorough: all size pairs <= 8 twice, plus sampled pairs with a side in "
             "{9,12,16,24,32,40}) for start and end, either one larger or equal; hydrogens on leaves of the larger molecule, one or two "
             "residues; restraint lists none/one pair/two pairs; every non-empty subset of deformation types {0,1,2} (type 2 only when "
@@ -265,11 +276,13 @@ def type_subsets(mobile_atoms, allow2=True):
 
 
 SCENARIOS = ("ctor", "setters", "reset")
-STEPS = (3, 10, 40)
+STEPS = (3, 8, 20)
+ENERGY_BUDGET = 20000
 
 
-def cases_for_pair(pair, seeds, allow2=True, steps=STEPS, with_default_types=True):
-    """All option combinations for one pair; seeds as given; one run per combination is repeated for determinism."""
+def cases_for_pair(pair, seeds, allow2=True, steps=STEPS, with_default_types=True, all_seeds_every=1, budget=None):
+    """All option combinations for one pair.  Combination k runs seed seeds[k % len(seeds)] and repeats that run for
+    determinism; every `all_seeds_every`-th combination runs all the seeds (1: every combination)."""
     ns, ne = len(pair["start"]["names"]), len(pair["end"]["names"])
     mobile = min(ns, ne)
     g = pair["gen"]
@@ -281,7 +294,9 @@ def cases_for_pair(pair, seeds, allow2=True, steps=STEPS, with_default_types=Tru
     multi_res = pair["start"].get("n_res", 1) > 1
     for (rname, restr), types, ih in itertools.product(restraint_lists(rng, ns, ne), subs, (True, False)):
         for sd in seeds:
-            yield {"start": pair["start"], "end": pair["end"], "gen": g,
+            if k % all_seeds_every and sd != seeds[k % len(seeds)]:
+                continue
+            yield {"start": pair["start"], "end": pair["end"], "gen": g, "energy_budget": budget or ENERGY_BUDGET,
                    "restrictions": restr, "restr_kind": rname,
                    "auto_guess": not (multi_res and restr is None),
                    "types": types, "ignore_h": ih, "seed": sd,
@@ -427,6 +442,27 @@ def _build(Alignment, scenario, S, E, extra):
     raise Harness(f"unknown scenario {scenario}")
 
 
+@contextlib.contextmanager
+def _energy_budget(limit):
+    """Counts the optimiser's energy evaluations (Chi2Calculator.__call__, wrapped in the checker process only) and
+    aborts the run beyond `limit`: with a flat energy landscape rounding noise keeps resetting the optimiser's stop
+    counter and a run with STEPS_FACTOR=40 can take millions of steps."""
+    import gaddlemaps._backend as bk
+    orig = bk.Chi2Calculator.__call__
+    n = [0]
+
+    def counted(self, mol2):
+        n[0] += 1
+        if n[0] > limit:
+            raise _Budget()
+        return orig(self, mol2)
+    bk.Chi2Calculator.__call__ = counted
+    try:
+        yield n
+    finally:
+        bk.Chi2Calculator.__call__ = orig
+
+
 def _align(ali, case, seed):
     restr = case["restrictions"]
     restr = None if restr is None else [tuple(p) for p in restr]
@@ -434,9 +470,12 @@ def _align(ali, case, seed):
     types = None if types is None else tuple(types)
     ali.STEPS_FACTOR = int(case["steps_factor"])      # instance attribute: the class default is left alone
     np.random.seed(seed)
-    with _quiet():
-        ali.align_molecules(restrictions=restr, deformation_types=types, ignore_hydrogens=bool(case["ignore_h"]),
-                            auto_guess_protein_restrictions=bool(case.get("auto_guess", True)))
+    try:
+        with _quiet(), _energy_budget(int(case.get("energy_budget", ENERGY_BUDGET))):
+            ali.align_molecules(restrictions=restr, deformation_types=types, ignore_hydrogens=bool(case["ignore_h"]),
+                                auto_guess_protein_restrictions=bool(case.get("auto_guess", True)))
+    except _Budget:
+        raise OverBudget(f"optimiser exceeded {case.get('energy_budget', ENERGY_BUDGET)} energy evaluations")
 
 
 def run_case(case, paths=None, other_seed_repeat=False):
@@ -715,6 +754,10 @@ def corrupt_obs(case, obs, how):
         who, (pos, atoms), ref = cs[0]
         cs[0] = (who, (pos + np.array([1e-9, 0, 0]), atoms), ref)
         o["callers"] = cs
+    elif how == "repeat_one_ulp":
+        X = o["A2" if start_mobile else "B2"].copy()
+        X[0, 0] = np.nextafter(X[0, 0], -np.inf)
+        o["A2" if start_mobile else "B2"] = X
     elif how == "caller_renamed":
         cs = list(o["callers"])
         who, (pos, atoms), ref = cs[1]
@@ -761,6 +804,7 @@ class Collector:
         self.family = family
         self.st = {}
         self.harness = []
+        self.skipped = []
         self.sample = None
         self.digests = {}
         self.det_cases = {}
@@ -803,6 +847,13 @@ class Collector:
             else:
                 out.append(ob(oid, "discharged", kind="bounded", engine="smallscope", backend="runtime-contract",
                               secs=secs / max(1, len(self.st)), sample=self.sample, evaluations=s["n"], nontrivial=s["nt"]))
+        n_runs = self.st.get(C_RETURNS, {}).get("n", 0)
+        out.append(ob(f"{PROP}/{FN_ALIGN}/guard.scope-evaluated-within-energy-budget/{self.family}",
+                      "discharged" if n_runs > 0 and len(self.skipped) <= max(2, n_runs // 10) else "refuted", kind="guard",
+                      engine="smallscope", backend="runtime-contract", expect="discharged", evaluations=n_runs,
+                      reason=(f"{len(self.skipped)} of {n_runs + len(self.skipped)} runs skipped: the optimiser exceeded its energy-evaluation "
+                              f"budget (flat energy landscape; termination/run time is not C06's)"
+                              + (f"; first: {self.skipped[0]}" if self.skipped else ""))))
         if self.harness:
             out.append(ob(f"{PROP}/{FN_ALIGN}/harness/{self.family}", "undecided", kind="bounded", engine="smallscope",
                           backend="runtime-contract", reason=f"{len(self.harness)} cases not evaluated; first: {self.harness[0]}"))
@@ -815,15 +866,18 @@ def evaluate(case, paths=None):
     return fail, nt, obs
 
 
-def run_pairs(family, pairs, seeds, allow2=True, steps=STEPS, with_default_types=True):
+def run_pairs(family, pairs, seeds, allow2=True, steps=STEPS, with_default_types=True, all_seeds_every=1, budget=None):
     col = Collector(family)
     for pair in pairs:
         d = tempfile.mkdtemp(prefix="b06_")
         try:
             paths = {"start": _write(d, "start", pair["start"]), "end": _write(d, "end", pair["end"])}
-            for case in cases_for_pair(pair, seeds, allow2, steps, with_default_types):
+            for case in cases_for_pair(pair, seeds, allow2, steps, with_default_types, all_seeds_every, budget):
                 try:
                     fail, nt, obs = evaluate(case, paths)
+                except OverBudget:
+                    col.skipped.append(short(case))
+                    continue
                 except Harness as e:
                     col.harness.append(f"{short(case)}: {e}")
                     continue
@@ -848,7 +902,7 @@ def _valid_sizes(ns, ne):
 
 def task_trees(tier, seed, ns, ne_lo, ne_hi, insts):
     pairs = [gen_pair(seed, ns, ne, inst) for ne in range(ne_lo, ne_hi + 1) if _valid_sizes(ns, ne) for inst in insts]
-    return run_pairs(f"trees/start={ns}/end={ne_lo}..{ne_hi}", pairs, _seeds(tier))
+    return run_pairs(f"trees/start={ns}/end={ne_lo}..{ne_hi}", pairs, _seeds(tier), all_seeds_every=4 if tier == "quick" else 1)
 
 
 def task_big(tier, seed, a, partners):
@@ -857,7 +911,7 @@ def task_big(tier, seed, a, partners):
         pairs.append(gen_pair(seed, a, b, 0))
         if a != b:
             pairs.append(gen_pair(seed, b, a, 0))
-    return run_pairs(f"trees/large={a}/other={','.join(map(str, partners))}", pairs, [0, 1], steps=(3, 5))
+    return run_pairs(f"trees/large={a}/other={','.join(map(str, partners))}", pairs, [0, 1], steps=(3, 5), all_seeds_every=3, budget=80000)
 
 
 def task_cyclic(tier, seed, start_mobile, sizes):
@@ -871,7 +925,8 @@ def task_cyclic(tier, seed, start_mobile, sizes):
             ns, ne = (nm, larger) if start_mobile else (larger, nm)
             pairs.append(gen_pair(seed, ns, ne, 0, cyclic=extra))
     who = "start" if start_mobile else "end"
-    return run_pairs(f"cyclic-mobile-{who}/mobile={sizes[0]}..{sizes[-1]}", pairs, _seeds(tier), allow2=False, with_default_types=False)
+    return run_pairs(f"cyclic-mobile-{who}/mobile={sizes[0]}..{sizes[-1]}", pairs, _seeds(tier), allow2=False, with_default_types=False,
+                     all_seeds_every=4 if tier == "quick" else 1)
 
 
 def task_shipped(tier, seed, k):
@@ -901,6 +956,8 @@ GUARDS = [
     ("nan", C_FINITE, (5, 3), [0, 1, 2], C_START_TR),
     ("caller_touched", C_CALLER, (5, 3), [0, 1, 2], C_BONDS),
     ("caller_renamed", C_CALLER, (3, 5), [0, 1, 2], C_BONDS),
+    ("repeat_one_ulp", C_DET, (5, 3), [0, 1, 2], C_BONDS),
+    ("repeat_one_ulp", C_DET, (3, 5), [0, 1], C_END_UNT),
 ]
 
 
@@ -911,30 +968,68 @@ def _guard_case(seed, ns, ne, types, sd=0, scenario="ctor", repeat=False):
             "repeat": repeat, "combo": -1}
 
 
+def ideal_obs(case):
+    """Observation a correct Alignment could produce, built from the generated input only (scripted twin):
+    start translated onto end's centre, the mobile molecule moved rigidly, everything else untouched."""
+    S0, E0 = np.array(case["start"]["xyz"], dtype=float), np.array(case["end"]["xyz"], dtype=float)
+    ns, ne = len(S0), len(E0)
+    v = E0.mean(axis=0) - S0.mean(axis=0)
+    k = np.array([0.3, -0.5, 0.8])
+    k = k / np.linalg.norm(k)
+    K = np.array([[0, -k[2], k[1]], [k[2], 0, -k[0]], [-k[1], k[0], 0]])
+    R = np.eye(3) + np.sin(0.7) * K + (1 - np.cos(0.7)) * (K @ K)
+
+    def rigid(X):
+        c = X.mean(axis=0)
+        return (X - c) @ R.T + c + np.array([0.11, -0.07, 0.05])
+    if ne == 1:
+        A1, B1 = S0 + v, E0.copy()
+    elif ns >= ne:
+        A1, B1 = S0 + v, rigid(E0)
+    else:
+        A1, B1 = rigid(S0 + v), E0.copy()
+    aS, aE = _oracle_atoms(case["start"]), _oracle_atoms(case["end"])
+    obs = {"exc": None, "S0": S0, "E0": E0, "A1": A1, "B1": B1, "atomsA": list(aS), "atomsB": list(aE),
+           "callers": [("start", (S0.copy(), list(aS)), (S0, aS)), ("end", (E0.copy(), list(aE)), (E0, aE))]}
+    if case.get("repeat"):
+        obs["A2"], obs["B2"] = A1.copy(), B1.copy()
+    return obs
+
+
 def task_guards(tier, seed):
+    """Must-fail guards of the clause predicates: an ideal observation (built from the input, independent of the code under
+    check) satisfies every clause; the same observation with one deliberate corruption must be refuted by the named clause
+    (and, where given, must still satisfy a neighbouring clause, so that the clauses are not all-or-nothing)."""
     out = []
     for gi, (how, must, (ns, ne), types, keep) in enumerate(GUARDS):
         gid = f"{PROP}/{FN_CLASS if must == C_CALLER else FN_ALIGN}/guard.must-fail.{how}/{must.split('.', 1)[1]}/start={ns},end={ne},types={_types_str(types)}"
         try:
-            case = _guard_case(seed, ns, ne, types)
-            obs = run_case(case)
+            case = _guard_case(seed, ns, ne, types, repeat=True)
+            obs = ideal_obs(case)
             base_fail, _ = check_clauses(case, obs)
             fail, _ = check_clauses(case, corrupt_obs(case, obs, how))
-            caught = must in fail and must not in base_fail and (keep is None or keep not in fail)
+            caught = must in fail and not base_fail and (keep is None or keep not in fail)
             out.append(ob(gid, "refuted" if caught else "discharged", kind="guard", engine="smallscope", backend="runtime-contract",
-                          expect="refuted", reason=fail.get(must, "") or f"not caught; failing clauses {sorted(fail)}", sample=short(case)))
+                          expect="refuted", reason=(fail.get(must, "") if caught else
+                                                    f"not as expected: ideal observation fails {sorted(base_fail)}, corrupted one fails {sorted(fail)}"),
+                          sample=short(case)))
         except Harness as e:
             out.append(ob(gid, "undecided", kind="guard", engine="smallscope", backend="runtime-contract", expect="refuted", reason=str(e)))
     # determinism: the comparison must see a repeat that used another seed
     gid = f"{PROP}/{FN_ALIGN}/guard.must-fail.repeat_with_other_seed/{C_DET.split('.', 1)[1]}"
     try:
-        caught = 0
+        caught, ran = 0, 0
         for ns, ne, types in ((5, 3, [0, 1, 2]), (3, 6, [0, 1]), (4, 4, [2])):
             case = _guard_case(seed, ns, ne, types, repeat=True)
-            fail, _ = check_clauses(case, run_case(case, other_seed_repeat=True))
+            obs = run_case(case, other_seed_repeat=True)
+            if obs["exc"] is not None or "A2" not in obs:
+                continue            # the run raised: reported by ensures.returns_without_exception, nothing to compare here
+            ran += 1
+            fail, _ = check_clauses(case, obs)
             caught += C_DET in fail
-        out.append(ob(gid, "refuted" if caught else "discharged", kind="guard", engine="smallscope", backend="runtime-contract",
-                      expect="refuted", reason=f"{caught}/3 repeats with seed+1 differ from the run with seed", evaluations=3))
+        if ran:
+            out.append(ob(gid, "refuted" if caught else "discharged", kind="guard", engine="smallscope", backend="runtime-contract",
+                          expect="refuted", reason=f"{caught}/{ran} real repeats with seed+1 differ from the run with seed", evaluations=ran))
     except Harness as e:
         out.append(ob(gid, "undecided", kind="guard", engine="smallscope", backend="runtime-contract", expect="refuted", reason=str(e)))
     # vacuity: the applicable-clause table covers every clause, and the class default STEPS_FACTOR is untouched
@@ -956,7 +1051,7 @@ def task_guards(tier, seed):
 def bounded_tasks(prop, tier, seed):
     t = []
     insts = (0,) if tier == "quick" else (0, 1)
-    lim = 90.0 if tier == "quick" else 600.0
+    lim = 300.0 if tier == "quick" else 1200.0     # kill protection only; a tree task takes ~5 s CPU (quick)
     for ns in range(1, 9):
         for lo, hi in ((1, 2), (3, 4), (5, 6), (7, 8)):
             t.append((f"b06/trees/start={ns}/end={lo}..{hi}", task_trees, (tier, seed, ns, lo, hi, insts), lim))
